@@ -110,7 +110,10 @@ def dds_hash(x: Any) -> PyHash:
         if isinstance(elt, float):
             return _algo_bytes(struct.pack("!d", elt))
         if isinstance(elt, int):
-            return _algo_bytes(struct.pack("!l", elt))
+            if -(2 ** 31) <= elt < 2 ** 31:
+                return _algo_bytes(struct.pack("!l", elt))
+            # Too large for the 4-byte packing (struct.error): hash the decimal form instead.
+            return _algo_str("__DDS_INT__" + str(elt))
         if isinstance(elt, CanonicalPath):
             return _algo_str(repr(elt))
         if isinstance(elt, list):
